@@ -58,6 +58,19 @@ def check(run):
         op = int(inp[2 * (hl - 5):2 * (hl - 5) + 2], 16)
         hcases.append((r["id"], "Bool.eqb (spec_header_acceptable %d %d) %s" % (vb, op, "true" if r["outcome"] == "ok" else "false")))
     compared = 0
+    if not pr["ok"] and hcases:
+        # the proofs are broken: the rejection clause can still be searched, it needs only the specification side
+        with vlib.Lock():
+            oks, _ = vlib.coq_make(["spec/SpecFrame.vo", "model/Hex.vo"])
+        if oks:
+            hpre = ["From GCNP Require Import spec.SpecFrame."]
+            hm, herr = fc.eval_cases("Cases_C02h", hpre, hcases)
+            hb = {r["id"]: r for r in hdr}
+            for cid in ([] if herr else hm):
+                r = hb.get(cid, {})
+                findings.append({"id": cid, "kind_of_failure": "header-acceptance", "input": r.get("input"), "outcome": r.get("outcome"), "origin": r.get("origin"),
+                                 "what": "DecodeHeader %s a header the specification %s (version byte / opcode / direction)" % (
+                                     "accepts" if r.get("outcome") == "ok" else "rejects", "rejects" if r.get("outcome") == "ok" else "accepts")})
     if pr["ok"] and (cases or hcases):
         mism, cerr = fc.eval_cases("Cases_C02", prelude, cases + hcases)
         if cerr:
